@@ -96,7 +96,9 @@ impl<T> Array<T> {
             None
         } else {
             let offset = index * self.strides[axis.0];
-            let data = &self.data[offset..];
+            // With an axis of length zero elsewhere the array holds no data, and the offset may lie
+            // beyond it: the view is then empty
+            let data = self.data.get(offset..).unwrap_or(&[]);
             let shape = self.shape.remove_axis(axis);
             let strides = self.strides.remove_axis(axis);
 
